@@ -119,6 +119,13 @@ CHECKS = {
         "note": "Trusted: TLC, result tagging. Known findings: greedy repetition is possessive (language shrinks when the follower needs the same token); greedy lost when the same base "
                 "symbol is also used non-greedy (shared helper rule). Imported grammars with sugar are covered by C20's corpus only incidentally.",
     },
+    "C14": {
+        "engine": "tlc-trace", "design_ref": "DESIGN.md 3.9 Layout, 7 C14",
+        "technique": "Layout.tla: outcomes of one token sequence under many layout fillings must be one abstract value (result, or error class at the same token via the token-start map); ws-parameter parser vs equivalent LAYOUT-rule parser compared on full trees (positions, layout_content) and error positions, TLC",
+        "level": "For every explored grammar and token sequence, every rendered layout variant (ws characters; line and nested block comments for LAYOUT grammars) gives the same LR and GLR "
+                 "outcome; for ws-only variants the ws parameter (default and custom sets) and the equivalent LAYOUT rule give identical trees, positions, layout_content and error positions.",
+        "note": "Trusted: TLC, the renderer's token-start map, tree projection. Bounded: single-character terminals, sequences <= 6 tokens, 6-12 variants each. Reuse of one parser object across inputs is C15's subject.",
+    },
     "C15": {
         "engine": "tlc-replay", "design_ref": "DESIGN.md 3.8, 4.2, 7 C15",
         "technique": "Lifecycle.tla machine: TLC enumerates all call histories up to the bound and simulates longer random ones; each replayed on real Grammar/parser objects; LifecycleTrace.tla validates the projected grammar state after every step and evaluates HistoryIndependent (reply = fresh parser's reply), TLC",
